@@ -22,6 +22,7 @@ import numpy as np
 
 from .. import core, encode, inputs, pool
 from .. import registry as R
+from . import rel_common as rc
 
 TRACE = ("Trace_Equivariance.tla", "Trace_Equivariance.cfg")
 CLAUSES = ("RaisesAlike", "NodeVectorPermutes", "PairMatrixPermutesBothAxes", "ScalarUnchanged",
@@ -131,11 +132,50 @@ def _enc_pair(kind, num, x1, x2, n):
     return dict(kind=kind, num=num, q=scale, a=_enc_arr(a, num, scale), b=_enc_arr(b, num, scale))
 
 
-def _call(row, args, kw):
+def _mat_dtypes(row, vkey, args, draw):
+    """{argument index: dtype} - what each NETWORK argument is handed for the job's draw
+    (rel_common.admissible): bool only where the registry declares a binary network (w='bin'),
+    float32 only when every judged output of the variant is integer by definition, uint8 only
+    for betweenness_bin (copies to float first); weights k/1000 and arguments for which the
+    registry fixes a dtype stay as they are.  Lossless by construction (as_variant checks)."""
+    if draw == "float64":
+        return {}
+    kinds = [k for k in R.out_kinds(row, vkey) if k[0] != "opaque"]
+    structural = bool(kinds) and all(num == "int" for _, num in kinds)
+    w_override = row["variants"].get(vkey, {}).get("_w")
+    out = {}
+    for i, (a, v) in enumerate(zip(row["args"], args)):
+        if a["k"] != "mat" or a.get("dtype") is not None or not isinstance(v, np.ndarray) or v.ndim != 2:
+            continue
+        w = w_override if (w_override and a["role"] == "adj") else a["w"]
+        if w == "unit" or not bool(np.all(v == np.round(v))):
+            continue
+        dt = rc.admissible(draw, binary=(w == "bin"), structural=structural,
+                           floats_first=row["name"] == "betweenness_bin")
+        if dt == "bool" and not bool(np.all((v == 0) | (v == 1))):
+            dt = "int32"
+        if dt == "uint8" and v.min() < 0:
+            dt = "int32"
+        out[i] = dt
+    return out
+
+
+def _call(row, args, kw, dts=None, layout="C"):
+    """every call gets fresh arrays; a network argument as the drawn dtype / memory layout"""
+    dts = dts or {}
+
+    def fresh(i, a):
+        if not isinstance(a, np.ndarray):
+            return a
+        if a.ndim == 2 and row["args"][i]["k"] == "mat" and (i in dts or layout != "C"):
+            return rc.as_variant(a, dts.get(i, str(a.dtype)), layout)
+        return a.copy()
     try:
         with np.errstate(all="ignore"):
-            res = R.call(row, [a.copy() if isinstance(a, np.ndarray) else a for a in args],
+            res = R.call(row, [fresh(i, a) for i, a in enumerate(args)],
                          {k: (v.copy() if isinstance(v, np.ndarray) else v) for k, v in kw.items()})
+    except core.MachineryError:
+        raise
     except Exception as e:                       # noqa: BLE001 - the outcome IS the datum
         return None, encode.exc_name(e)
     return (res if isinstance(res, tuple) else (res,)), ""
@@ -176,8 +216,11 @@ def exec_job(job):
             ins.append(dict(act="vec", a=_enc_in(kw1[k], scale), b=_enc_in(kw2[k], scale)))
     rec = dict(prop="C04", fn=job["fn"], base=job["base"], n=n, p=[int(x) + 1 for x in p],
                scale=scale, ins=ins, raised1="", raised2="", outs=[])
-    r1, rec["raised1"] = _call(row, args1, kw1)
-    r2, rec["raised2"] = _call(row, args2, kw2)
+    # both evaluations get the SAME argument dtype / memory layout (the job's draw); `ins` above
+    # is encoded from the float originals
+    dts = _mat_dtypes(row, job["vkey"], args1, job.get("draw", "float64"))
+    r1, rec["raised1"] = _call(row, args1, kw1, dts, job.get("layout", "C"))
+    r2, rec["raised2"] = _call(row, args2, kw2, dts, job.get("layout", "C"))
     if rec["raised1"] or rec["raised2"]:
         return rec
     kinds = R.out_kinds(row, job["vkey"])
@@ -249,10 +292,13 @@ def _first_spec(row):
     return None
 
 
-def _mkjob(row, label, vkey, rng, n, p, src, support=None, uniform=False, und=None):
+def _mkjob(row, label, vkey, rng, n, p, src, support=None, uniform=False, und=None, p_plain=0.6):
     args = R.build_args(row, rng, n, und=und, vkey=vkey, support=support, uniform=uniform)
     if args is None:
         return None
+    # the argument dtype / memory layout of the network arguments (same for f(A) and f(p.A)):
+    # one draw per job over the widest universe, mapped per argument by _mat_dtypes
+    dt, lay = rc.draw_variant(rng, rc.DT_BIN, p_plain)
     kw = R.resolve_kwargs(row, vkey, args, rng, n)
     kwact = {}
     for k, v in row["variants"][vkey].items():
@@ -260,9 +306,10 @@ def _mkjob(row, label, vkey, rng, n, p, src, support=None, uniform=False, und=No
             kwact[k] = "vec"
         elif v == "CI":
             kwact[k] = "ci"
+    eff = sorted(set(_mat_dtypes(row, vkey, args, dt).values()))
     return dict(fn=label, base=row["name"], vkey=vkey, n=n, src=src,
                 args=[_jsonable(a) for a in args], kw={k: _jsonable(v) for k, v in kw.items()},
-                kwact=kwact, p=list(p))
+                kwact=kwact, p=list(p), draw=dt, dtype=eff[0] if len(eff) == 1 else "float64", layout=lay)
 
 
 def _rand_perm(rng, n):
@@ -283,6 +330,12 @@ def build_jobs(ctx):
     und5 = [_support(5, e, True) for e in inputs.model_graphs(ctx, "und", 5)]
     sym_u = {k: _support(n, e, True) for k, (n, e) in symmetric_graphs().items()}
     sym_d = {k: _support(n, e, False) for k, (n, e) in directed_symmetric().items()}
+
+    def structured(und):
+        """a structured support (rel_common: paths, cycles, stars, complete, bipartite, caterpillars,
+        rings of cliques, equal/unequal components, isolated nodes), oriented when directed"""
+        name, n, edges = rc.structured_support(rng, 5, 10)
+        return name, _support(n, edges if und else rc.orient(rng, edges), und)
     for row in R.c04_rows():
         spec = _first_spec(row)
         for label, vkey in R.cases(row):
@@ -325,7 +378,12 @@ def build_jobs(ctx):
                 for name, S in sorted(fam.items()):
                     for t in range(2 if q else 4):
                         add(len(S), _rand_perm(rng, len(S)), "symmetric:" + name, S,
-                            uniform=(t % 2 == 0) or spec["w"] == "bin", und=und)
+                            uniform=(rng.random() < 0.5) or spec["w"] == "bin", und=und)
+                # --- structured supports that small enumerations and G(n,p) hardly produce
+                for _ in range(int((6 if q else 30) * share)):
+                    name, S = structured(und)
+                    add(len(S), _rand_perm(rng, len(S)), "struct:" + name, S,
+                        uniform=rng.random() < 0.5, und=und)
                 # --- random n in 6..10
                 for _ in range(int((12 if q else 40) * share)):
                     n = rng.randint(6, 10)
@@ -339,9 +397,9 @@ def describe(job, rec, clause):
     bad = ""
     for o in outs:
         bad += " %s/%s a=%s b=%s" % (o["kind"], o["num"], str(o["a"])[:110], str(o["b"])[:110])
-    return "%s n=%d p=%s (0-based) raised=(%r,%r) first-arg=%s%s" % (
-        rec["fn"], rec["n"], job["p"], rec["raised1"], rec["raised2"],
-        str(job["args"][0])[:160] if job["args"] else "", bad[:500])
+    return "%s n=%d p=%s (0-based) dtype=%s layout=%s raised=(%r,%r) first-arg=%s%s" % (
+        rec["fn"], rec["n"], job["p"], job.get("dtype", "float64"), job.get("layout", "C"),
+        rec["raised1"], rec["raised2"], str(job["args"][0])[:160] if job["args"] else "", bad[:500])
 
 
 def _evidence(ctx, jobs, recs, verdicts):
@@ -417,15 +475,19 @@ def run(ctx):
     bad = [(j["fn"], v[0]) for j, v in zip(jobs, verdicts) if v[0] in BAD]
     if bad:
         raise core.MachineryError("harness produced records the spec cannot read: %s" % bad[:5])
-    ctx.judge(jobs, recs, verdicts, what=describe)
+    ctx.judge(jobs, rc.tag_failures(ctx, jobs, recs, verdicts), verdicts, what=describe)
+    ctx.extra["argument_variants"] = rc.variant_counts(jobs)
     _evidence(ctx, jobs, recs, verdicts)
     ctx.exhaustive = not ctx.quick
     nfn = len({j["fn"] for j in jobs})
     ctx.rule = ("registry-driven: %d measure variants of the 8 anchored files x {TLC-enumerated supports on 4 nodes "
                 "(all 64 undirected, %s directed) x %s of the 24 TLC-enumerated renumberings; supports on 5 nodes x "
                 "%d of 120; 19+6 highly symmetric graphs (cycles, complete, complete bipartite, disjoint copies, "
-                "prism, cube, Petersen, directed cycles) with common and random weights; seeded random n in 6..10 x "
-                "random renumberings}; weights 1..3 / k/1000 in (0,1] / signed; non-trivial = distinct judged "
+                "prism, cube, Petersen, directed cycles) with common and random weights; structured supports (paths, "
+                "cycles, stars, complete, bipartite, caterpillars, rings of cliques, equal/unequal components, also "
+                "oriented); seeded random n in 6..10 x random renumberings}; 40%% of the jobs hand the network over "
+                "as another dtype (bool/int32/int64/uint8/float32 where the registry's argument kind and output kinds "
+                "allow) and memory layout (Fortran, transposed, window, strided), the same for both numberings; weights 1..3 / k/1000 in (0,1] / signed; non-trivial = distinct judged "
                 "(measure, input, non-identity renumbering)"
                 % (nfn, "48 of the 4096" if ctx.quick else "64 of the 4096",
                    "3" if ctx.quick else "all", 3 if ctx.quick else 8))
